@@ -154,3 +154,27 @@ def macrocycle(r, lo=12, hi=40):
 def disjoint(parts):
     """disjoint union keeping integer labels consecutive"""
     return nx.disjoint_union_all(parts)
+
+
+def named_cages():
+    """classic condensed systems and cages (degree <= 4): ladders / grids (linearly and peri-condensed four-rings), hexagonal
+    lattices (pyrene / coronene like), prisms, Moebius ladders, polyhedra and cubic cage graphs; [(name, graph)]"""
+    out = []
+    for n in range(3, 9):
+        out.append((f'prism{n}', nx.circular_ladder_graph(n)))
+    for n in range(3, 7):
+        g = nx.cycle_graph(2 * n)
+        g.add_edges_from((i, i + n) for i in range(n))
+        out.append((f'moebius{n}', g))
+    for a in range(2, 5):
+        for b in range(a, 6):
+            out.append((f'grid{a}x{b}', nx.convert_node_labels_to_integers(nx.grid_2d_graph(a, b))))
+    for a in range(1, 4):
+        for b in range(a, 4):
+            out.append((f'hex{a}x{b}', nx.convert_node_labels_to_integers(nx.hexagonal_lattice_graph(a, b))))
+    for name, f in (('cubane', nx.cubical_graph), ('dodecahedrane', nx.dodecahedral_graph), ('petersen', nx.petersen_graph),
+                    ('octahedron', nx.octahedral_graph), ('trunc-tetrahedron', nx.truncated_tetrahedron_graph),
+                    ('trunc-cube', nx.truncated_cube_graph), ('heawood', nx.heawood_graph), ('frucht', nx.frucht_graph),
+                    ('pappus', nx.pappus_graph), ('desargues', nx.desargues_graph), ('moebius-kantor', nx.moebius_kantor_graph)):
+        out.append((name, nx.convert_node_labels_to_integers(f())))
+    return [(n, g) for n, g in out if max(d for _, d in g.degree()) <= 4]
